@@ -868,6 +868,12 @@ class ApplicationStartJobs(ApplicationJobs):
                                   f' process={process.namespec} with strategy={command.strategy.name}')
                 if identifier:
                     command.update_identifier(identifier)
+            elif command.identifier and process.disabled_on(command.identifier):
+                # the Supvisors instance has been decided when the job was prepared
+                # and the program has been disabled there since then
+                self.logger.warn(f'ApplicationStartJobs.process_job: {process.namespec} is now disabled'
+                                 f' on Supvisors={command.identifier}')
+                command.identifier = None
             if command.identifier:
                 command.start()
                 queued = True
